@@ -57,6 +57,16 @@ def psds(rng, D, lead, cond=100.0, rank=None):
 def compose(name, ban, Px, Pn, kw, atf=None):
     """the composition of primitives spelled by the name, written out by hand (atf: options of the ATF / rank-one step)."""
     from pb_bss.extraction import beamformer as bf, beamformer_wrapper as bw
+
+    class _Private:
+        """every primitive call gets private copies (same memory layout) of its array arguments: the composition is one of values"""
+        def __init__(self, mod):
+            self.mod = mod
+
+        def __getattr__(self, name):
+            f = getattr(self.mod, name)
+            return lambda *a, **k: f(*[np.copy(x, order='K') if isinstance(x, np.ndarray) else x for x in a], **k)
+    bf, bw = _Private(bf), _Private(bw)
     atf = atf or {}
     parts = name.split('+')
     tgt = Px
@@ -96,6 +106,12 @@ def run_wrapper(case, R):
     D, F = case['D'], case['F']
     Px, Pn = psds(rng, D, (F,), rank=int(rng.integers(1, D + 1)))
     Px = Px + 1e-9 * np.eye(D)
+    lay = case['rs'][-1] % 4
+    if lay in (1, 2):
+        # statistics as the Hermitian-transpose idiom leaves them: same values up to rounding, every matrix stored column-major
+        Px = np.conj(Px).swapaxes(-1, -2)
+    if lay in (2, 3):
+        Pn = np.conj(Pn).swapaxes(-1, -2)
     name = case['core'] + ('+ban' if case['ban'] else '')
     kw = {}
     atf = {}
@@ -109,7 +125,7 @@ def run_wrapper(case, R):
             kw = dict(ref_channel=int(rng.integers(0, D)))
         elif 'wmwf' in name:
             kw = dict(reference_channel=int(rng.integers(0, D)), distortion_weight=float(rng.choice([0.0, 1.0, 3.5])))
-    info = dict(name=name, D=D, F=F, kwargs=kw, atf_kwargs=atf)
+    info = dict(name=name, D=D, F=F, kwargs=kw, atf_kwargs=atf, layout=['c', 'target-colmajor', 'both-colmajor', 'noise-colmajor'][lay])
     try:
         ref = compose(case['core'], case['ban'], Px, Pn, dict(kw), atf)
     except Exception as e:
@@ -119,7 +135,7 @@ def run_wrapper(case, R):
         R.count(f'composition of {name} raised {type(e).__name__}: {str(e)[:80]}')
         return
     try:
-        got = get_bf_vector(name, Px, Pn, **dict(kw), **({'atf_kwargs': dict(atf)} if atf else {}))
+        got = get_bf_vector(name, np.copy(Px, order='K'), np.copy(Pn, order='K'), **dict(kw), **({'atf_kwargs': dict(atf)} if atf else {}))
     except Exception as e:
         if not instr.is_library_exception(e):
             raise
